@@ -23,6 +23,7 @@ package tally
 import (
 	"bytes"
 	"sync"
+	"unicode/utf8"
 )
 
 var (
@@ -157,6 +158,13 @@ func (c *ValidCharacters) sanitizeFn(repChar rune) SanitizeFn {
 					validCurr = true
 					break
 				}
+			}
+
+			// an invalid byte decodes as RuneError with width 1; it is never
+			// valid, even when U+FFFD itself is an allowed character
+			if validCurr && ch == utf8.RuneError {
+				_, width := utf8.DecodeRuneInString(value[idx:])
+				validCurr = width != 1
 			}
 
 			// if it's valid, we can optimise allocations by avoiding copying
